@@ -11,6 +11,9 @@ from .smt import Obligation, Result, discharge
 KNOWN_PATH = os.path.join(VERIF, 'known_findings.json')
 EXPECTED_PATH = os.path.join(VERIF, 'expected_obligations.json')
 
+REPLAY_SECONDS = 60
+REPLAY_TOTAL = 150
+
 def _out_root():
     "evidence/ and replay/ live in /verif only for runs against /repo itself; scratch-copy runs (VERIF_REPO) write elsewhere"
     if os.path.realpath(REPO) == '/repo': return VERIF
@@ -116,12 +119,22 @@ class Ctx:
         errors = [r for r in self.results if r.status == 'error']
         refuted = [r for r in self.results if r.status == 'refuted']
         known_used = []
+        replay_spent = 0.0
         for r in refuted:
             rp = None
             for pre, fn in sorted(self.replayers.items(), key=lambda kv: -len(kv[0])):
                 if r.name.startswith(pre):
                     try:
-                        rp = fn(r)
+                        from .par import hard_timeout, HardTimeout
+                        if replay_spent > REPLAY_TOTAL:
+                            rp = dict(reproduced=None, detail=f'replay not attempted: the replay budget of this run ({REPLAY_TOTAL} s) was spent on earlier refuted obligations; ./vf replay <this file> runs it alone')
+                            break
+                        t0_ = time.time()
+                        try:
+                            with hard_timeout(REPLAY_SECONDS): rp = fn(r)
+                        except HardTimeout:
+                            rp = dict(reproduced=None, detail=f'replay search stopped after {REPLAY_SECONDS} s')
+                        replay_spent += time.time() - t0_
                     except Exception as e:
                         rp = dict(reproduced=None, detail='replay harness error: ' + ''.join(traceback.format_exception_only(type(e), e)).strip())
                     break
